@@ -29,6 +29,8 @@ SAME_SG_NAME_PROB = 0.3
 CONST_OUTPUT_PROB = 0.0
 # probability that a graph INPUT is also returned as a graph output (passthrough)
 PASSTHROUGH_PROB = 0.08
+# probability that the tensor table of a subgraph is NOT in creation order
+TENSOR_ORDER_SHUFFLE_PROB = 0.3
 # value distribution of generated float constants (a check may narrow it)
 CONST_KINDS = ['normal'] * 6 + ['pos', 'neg', 'tiny', 'big', 'zero']
 
@@ -505,6 +507,26 @@ def gen_subgraph(mb, sg_index, key, n_ops, op_weights=None, want4d=None, fanout=
   if DUPLICATE_OUTPUTS and rng.random() < DUP_PROB:
     outs.append(rng.choice(outs))      # one tensor returned under two output names
   gb.g.outputs = outs
+  if rng.random() < TENSOR_ORDER_SHUFFLE_PROB:
+    # the tensor table need not be in creation order (converters list constants
+    # after activations, etc.): renumber every tensor consistently
+    n = len(gb.g.tensors)
+    perm = list(range(n))
+    rng.shuffle(perm)                         # old index -> new index
+    newt = [None] * n
+    for old, new in enumerate(perm):
+      newt[new] = gb.g.tensors[old]
+    gb.g.tensors = newt
+    mp = lambda x: int(x) if int(x) == -1 else perm[int(x)]
+    for o in gb.g.operators:
+      o.inputs = np.array([mp(x) for x in o.inputs], dtype=np.int32)
+      o.outputs = np.array([mp(x) for x in o.outputs], dtype=np.int32)
+    gb.g.inputs = [mp(x) for x in gb.g.inputs]
+    gb.g.outputs = [mp(x) for x in gb.g.outputs]
+    gb.acts = [(mp(t), s_, f) for (t, s_, f) in gb.acts]
+    gb.consts = [mp(c) for c in gb.consts]
+    if hasattr(gb, 'max_consts'):
+      gb.max_consts = [(mp(c), d) for (c, d) in gb.max_consts]
   gb.g.inputs = np.array(gb.g.inputs, dtype=np.int32)
   gb.g.outputs = np.array(gb.g.outputs, dtype=np.int32)
   mb.m.subgraphs.append(gb.g)
@@ -609,3 +631,37 @@ def shared_weight_model(rng):
     tm = S.TensorMapT(); tm.name = f'y{i}'.encode(); tm.tensorIndex = int(t); sd.outputs.append(tm)
   mb.m.signatureDefs.append(sd)
   return mb.finish(), {'n_subgraphs': 1, 'ops': [2]}
+
+
+def fc3d_model(rng):
+  """x[1,S,K] -> FULLY_CONNECTED(keepNumDims) with optional bias and fused activation
+  (-> TANH): the shape the op-replacement (emulated sub-channel) transformation accepts"""
+  mb = ModelBuilder(rng, name_style=0)
+  gb = GraphBuilder(mb, 0, 'serving_default')
+  s_, k_, n_ = rng.choice([1, 2, 3]), rng.choice([8, 16]), rng.choice([2, 4])
+  x = gb.act('serving_default_x', (1, s_, k_))
+  gb.g.inputs.append(x)
+  w = gb.fconst('serving_default/fc/w', [n_, k_], kind='normal')
+  b = -1 if rng.random() < 0.4 else gb.fconst('serving_default/fc/b', [n_], kind='normal')
+  out = gb.act('serving_default/fc/out', (1, s_, n_))
+  gb.op(B.FULLY_CONNECTED, [x, w, b], [out], S.BuiltinOptions.FullyConnectedOptions,
+        gb._mk(S.FullyConnectedOptionsT, fusedActivationFunction=rng.choice([0, 1, 1]),  # pylint: disable=protected-access
+               keepNumDims=True, weightsFormat=0))
+  last = out
+  if rng.random() < 0.5:
+    t = gb.act('serving_default/tanh/out', (1, s_, n_))
+    gb.op(B.TANH, [out], [t])
+    last = t
+  for t_ in gb.g.tensors:
+    t_.quantization = S.QuantizationParametersT()     # as the converter emits it: present, empty
+  gb.g.outputs = np.array([last], dtype=np.int32)
+  gb.g.inputs = np.array(gb.g.inputs, dtype=np.int32)
+  mb.m.subgraphs.append(gb.g)
+  sd = S.SignatureDefT()
+  sd.signatureKey = b'serving_default'
+  sd.subgraphIndex = 0
+  sd.inputs, sd.outputs = [], []
+  tm = S.TensorMapT(); tm.name = b'x'; tm.tensorIndex = int(x); sd.inputs.append(tm)
+  tm = S.TensorMapT(); tm.name = b'y'; tm.tensorIndex = int(last); sd.outputs.append(tm)
+  mb.m.signatureDefs.append(sd)
+  return mb.finish(), {'n_subgraphs': 1, 'ops': [len(gb.g.operators)]}
